@@ -112,7 +112,13 @@ pub fn mix_table(mix: &str) -> Vec<(&'static str, u32)> {
         ],
         "two" => vec![
             ("insert", 30), ("remove", 25), ("clone", 4), ("clone_from", 8), ("eq", 6), ("get", 4),
-            ("shrink_to", 2), ("reserve", 2), ("clear", 1), ("drain", 1), ("retain", 2), ("new", 1),
+            ("shrink_to", 2), ("reserve", 2), ("clear", 1), ("drain", 1), ("retain", 2), ("new", 3),
+        ],
+        "fault" => vec![
+            ("insert", 34), ("remove", 24), ("e_or_insert", 5), ("rc_or_insert", 4), ("try_insert", 3), ("reserve", 3),
+            ("shrink_to", 3), ("shrink_to_fit", 2), ("clear", 2), ("retain", 3), ("extract_if", 2), ("drain", 2),
+            ("clone", 3), ("clone_from", 6), ("extend", 3), ("get", 3), ("eq", 2), ("new", 3), ("into_iter", 1),
+            ("e_replace_none", 2), ("e_insert", 2), ("re_from_key_or_insert", 2), ("get_many_mut", 2), ("iter", 1),
         ],
         "many" => vec![
             ("insert", 30), ("remove", 20), ("get_many_mut", 15), ("get_many_kv_mut", 8), ("index", 4),
@@ -165,18 +171,37 @@ pub struct OpGen {
     pub total: u32,
     pub nkeys: u32,
     pub nt: usize,
+    pub step: std::cell::Cell<usize>,
 }
 
 impl OpGen {
     pub fn new(mix: &str, nkeys: u32, nt: usize) -> OpGen {
         let table = mix_table(mix);
         let total = table.iter().map(|x| x.1).sum();
-        OpGen { table, total, nkeys, nt }
+        OpGen { table, total, nkeys, nt, step: std::cell::Cell::new(0) }
     }
+    /// Weighted choice; the weights of inserting and removing operations oscillate in phases (fill, drain,
+    /// churn) so that walks reach full load, tombstone saturation and near-empty tables.
     pub fn pick(&self, rng: &mut SmallRng) -> &'static str {
-        let mut x = rng.random_range(0..self.total);
+        let step = self.step.get();
+        self.step.set(step + 1);
+        let phase = (step / 150) % 4; // 0 fill, 1 churn, 2 drain, 3 churn
+        let w_of = |n: &str, w: u32| -> u32 {
+            let ins = n == "insert" || n == "t_insert_unique" || n == "extend";
+            let rem = n == "remove" || n == "t_remove" || n == "take";
+            match phase {
+                0 if ins => w * 3,
+                0 if rem => w / 3,
+                2 if rem => w * 3,
+                2 if ins => w / 3,
+                _ => w,
+            }
+        };
+        let total: u32 = self.table.iter().map(|(n, w)| w_of(n, *w)).sum();
+        let mut x = rng.random_range(0..total);
         for (n, w) in &self.table {
-            if x < *w {
+            let w = w_of(n, *w);
+            if x < w {
                 return n;
             }
             x -= w;
@@ -301,11 +326,16 @@ where
     for<'a> K: From<&'a K::Q>,
 {
     let mut rng = SmallRng::seed_from_u64(seed ^ 0x9E37_79B9_7F4A_7C15);
-    let nt = sc.opt_u("nt", if sc.mix == "two" { 2 } else { 1 }) as usize;
+    let nt = sc.opt_u("nt", if sc.mix == "two" || sc.mix == "fault" { 2 } else { 1 }) as usize;
     env::reset_all();
     let p1 = make_plan(&sc.plan, sc.nkeys, &mut rng);
     let p2 = make_plan(sc.opt("plan2").unwrap_or(&sc.plan), sc.nkeys, &mut rng);
     env::with(|e| e.plans = vec![p1, p2]);
+    let chaos_h = sc.opt_u("chaos", 0) > 0;
+    let chaos_e = sc.opt_u("chaoseq", 0) > 0;
+    if chaos_h || chaos_e {
+        env::setup_chaos(seed ^ 0xC4A05, vec![0, 0, 5, 15, 16, 31, 63, 65535], 3, chaos_h, chaos_e);
+    }
     let w = hashbrown::verif::GROUP_WIDTH;
     let (es, _) = hashbrown::verif::table_layout::<(K, V)>();
     let ea = std::mem::align_of::<(K, V)>();
@@ -318,7 +348,13 @@ where
         std::mem::needs_drop::<(K, V)>(),
         K::TRACKED,
         nt,
-        "lawful",
+        if sc.opt_u("chaos", 0) > 0 || sc.opt_u("chaoseq", 0) > 0 {
+            "chaos"
+        } else if sc.opt_u("fault", 0) > 0 {
+            "fault"
+        } else {
+            "lawful"
+        },
         seed,
     );
     let mut drv: MapDrv<K, V> = MapDrv::new(nt, w);
@@ -327,21 +363,55 @@ where
         ev.n = (t - 1) as i64;
         drv.exec(ev, tr);
     }
+    let fault_pct = sc.opt_u("fault", 0) as u32;
     let gen = OpGen::new(&sc.mix, sc.nkeys, nt);
     for _ in 0..sc.ops {
         let ev = {
             let tabs = &drv.tabs;
             gen.gen(&mut rng, &|t, c| tabs[t - 1].as_ref().map_or(true, |m| !m.contains_key(&K::q(c))))
         };
-        let pn = drv.exec(ev, tr);
-        if pn.starts_with("other") || pn == "unknown" {
-            // an unexpected panic inside a safe call: the trace records it, validation decides
-        }
+        let mut ev = ev;
+        arm_random_class(&mut ev, fault_pct, &mut rng, sc.opt("fclass"));
+        drv.exec(ev, tr);
     }
     for t in 1..=nt {
         drv.exec(Event::new("drop", t), tr);
     }
     finish(tr)
+}
+
+/// With probability `pct`% arms one fault (callback class + invocation index) for the operation.
+pub fn arm_random(ev: &mut Event, pct: u32, rng: &mut SmallRng) {
+    arm_random_class(ev, pct, rng, None)
+}
+
+pub fn arm_random_class(ev: &mut Event, pct: u32, rng: &mut SmallRng, force: Option<&str>) {
+    if pct == 0 || rng.random_range(0..100) >= pct {
+        return;
+    }
+    let c = rng.random_range(0..100);
+    let cloning = matches!(ev.op.as_str(), "clone" | "clone_from" | "or_assign" | "xor_assign" | "op_or" | "op_and" | "op_xor" | "op_sub");
+    let class = if cloning {
+        if c < 45 {
+            "clone"
+        } else if c < 70 {
+            "bh_clone"
+        } else if c < 90 {
+            "drop"
+        } else {
+            "hash"
+        }
+    } else if c < 62 {
+        "hash"
+    } else if c < 80 {
+        "eq"
+    } else {
+        "drop"
+    };
+    let k = [1, 1, 2, 2, 3, 4, 5, 7, 10][rng.random_range(0..9)];
+    let class = force.unwrap_or(class);
+    ev.fa = class.to_string();
+    ev.fk = k;
 }
 
 /// Final pseudo-event: registry and allocator must be empty, no observer error.
@@ -375,7 +445,7 @@ where
     let w = hashbrown::verif::GROUP_WIDTH;
     let (es, _) = hashbrown::verif::table_layout::<(K, ())>();
     let ea = std::mem::align_of::<(K, ())>();
-    tr.reset("set", &sc.name(), w, es, ea, std::mem::needs_drop::<K>(), K::TRACKED, nt, "lawful", seed);
+    tr.reset("set", &sc.name(), w, es, ea, std::mem::needs_drop::<K>(), K::TRACKED, nt, if sc.opt_u("fault", 0) > 0 { "fault" } else { "lawful" }, seed);
     let mut drv: SetDrv<K> = SetDrv::new(nt, w);
     for t in 1..=nt {
         let mut ev = Event::new("new", t);
@@ -383,8 +453,10 @@ where
         drv.exec(ev, tr);
     }
     let gen = OpGen::new(&sc.mix, sc.nkeys, 2);
+    let fault_pct = sc.opt_u("fault", 0) as u32;
     for _ in 0..sc.ops {
-        let ev = gen.gen(&mut rng, &|_t, _c| false);
+        let mut ev = gen.gen(&mut rng, &|_t, _c| false);
+        arm_random_class(&mut ev, fault_pct, &mut rng, sc.opt("fclass"));
         drv.exec(ev, tr);
     }
     for t in 1..=nt {
@@ -403,14 +475,16 @@ fn run_table<E: ElemT>(sc: &Scen, seed: u64, tr: &mut Tracer) -> i32 {
     let w = hashbrown::verif::GROUP_WIDTH;
     let (es, _) = hashbrown::verif::table_layout::<E>();
     let ea = std::mem::align_of::<E>();
-    tr.reset("table", &sc.name(), w, es, ea, std::mem::needs_drop::<E>(), E::TRACKED, nt, "lawful", seed);
+    tr.reset("table", &sc.name(), w, es, ea, std::mem::needs_drop::<E>(), E::TRACKED, nt, if sc.opt_u("fault", 0) > 0 { "fault" } else { "lawful" }, seed);
     let mut drv: TableDrv<E> = TableDrv::new(nt, w);
     for t in 1..=nt {
         drv.exec(Event::new("new", t), tr);
     }
     let gen = OpGen::new(&sc.mix, sc.nkeys, nt);
+    let fault_pct = sc.opt_u("fault", 0) as u32;
     for _ in 0..sc.ops {
-        let ev = gen.gen(&mut rng, &|_t, _c| false);
+        let mut ev = gen.gen(&mut rng, &|_t, _c| false);
+        arm_random_class(&mut ev, fault_pct, &mut rng, sc.opt("fclass"));
         drv.exec(ev, tr);
     }
     for t in 1..=nt {
@@ -441,6 +515,10 @@ macro_rules! dispatch_set {
             "k2" => $f::<K2>($($arg),*),
             "k4" => $f::<K4>($($arg),*),
             "k8" => $f::<K8>($($arg),*),
+            "k3" => $f::<K3>($($arg),*),
+            "k5" => $f::<K5>($($arg),*),
+            "k6" => $f::<K6>($($arg),*),
+            "k7" => $f::<K7>($($arg),*),
             other => panic!("unknown set layout {}", other),
         }
     };
@@ -457,6 +535,8 @@ macro_rules! dispatch_map {
             "k4v4" => $f::<K4, u32>($($arg),*),
             "k1v4" => $f::<K1, u32>($($arg),*),
             "k8v4" => $f::<K8, u32>($($arg),*),
+            "k3v4" => $f::<K3, u32>($($arg),*),
+            "k5v4" => $f::<K5, u32>($($arg),*),
             other => panic!("unknown map layout {}", other),
         }
     };
